@@ -153,7 +153,7 @@ func zzValue(d int, path string, s *zzSpec, n int, arrayLevel int) zzFacets {
 			nf.dontCare = zzKindIs(d, ep, zzvrt.KNull) // null map values: no promise
 			f = f.and(ef.and(nf).when(present))
 		}
-	case "enum-string":
+	case "enum-string", "enum-string-null":
 		isStr := zzKindIs(d, path, zzvrt.KString)
 		str := zzvrt.DStr(d, path)
 		member := false
@@ -213,8 +213,8 @@ func zzPosition(d int, path string, s *zzSpec, n int, arrayLevel int, _ bool) zz
 	switch {
 	case s.kind == "any":
 		return zzAllTrue()
-	case s.kind == "enum-mixed":
-		// null is a listed value of the mixed enum
+	case s.kind == "enum-mixed" || s.kind == "enum-string-null":
+		// null is a listed value of these enums
 		return v
 	case s.kind == "enum-string" || s.kind == "enum-int":
 		// null where the enum does not list it: like null at any non-nullable position, the
